@@ -5,8 +5,11 @@
    Character classes (Proofs/JidP.v), over Go's own unicode.IsSpace table
    (Gen/Generated.v, regenerated from the toolchain on every run):
      space_char c      := In c Generated.unicode_space
-     bad_local_char c  := space_char c \/ In c local_forbidden    (at slash ' dquote : < >)
-     bad_domain_char c := space_char c \/ In c domain_forbidden   (at slash)
+     bad_local_char c  := space_char c \/ In c local_forbidden    (at slash ' dquote : < > amp)
+     bad_domain_char c := space_char c \/ In c domain_forbidden   (at slash ' dquote < > amp)
+   C15_forbidden_sets writes both sets out, so a later change of either list in
+   the model (which follows the code through the correspondence run) breaks an
+   obligation instead of silently changing what "forbidden" means.
      valid_local l     := no character of l is a bad_local_char
      valid_domain d    := d <> [] and no character of d is a bad_domain_char
 
@@ -66,6 +69,27 @@ Proof.
   exact rej_bad_domain_only.
 Qed.
 
+(* What "white space or a forbidden character" means, written out.  In the local
+   part: white space (Go's unicode.IsSpace table) or one of the eight characters
+   RFC 7622 section 3.3.1 forbids in a localpart, code points 34 38 39 47 58 60 62 64
+   (double quote, ampersand, apostrophe, slash, colon, less-than, greater-than, at).
+   In the domain: white space, the two separators (47 slash, 64 at) or one of the
+   five characters that are special in XML (34 38 39 60 62), none of which occurs in
+   an IP literal or an IDNA name; the colon (58) is legal there (IPv6 literals).
+   The executable validators of the model - the ones compared with the code on
+   every run - decide exactly these classes. *)
+Theorem C15_forbidden_sets :
+  (forall c : N, bad_local_char c <->
+     (In c Generated.unicode_space \/ In c [34; 38; 39; 47; 58; 60; 62; 64])) /\
+  (forall c : N, bad_domain_char c <->
+     (In c Generated.unicode_space \/ In c [34; 38; 39; 47; 60; 62; 64])) /\
+  (forall l : str, username_valid l = true <-> valid_local l) /\
+  (forall d : str, domain_valid d = true <-> valid_domain d).
+Proof.
+  split; [exact bad_local_char_set|]. split; [exact bad_domain_char_set|].
+  split; [exact username_valid_iff | exact domain_valid_iff].
+Qed.
+
 (* Full() and Bare() render every parsed JID so that parsing the rendering gives the
    same JID back (without the resource for Bare) - also for a domain JID that has a
    resource.  For every string s, no exclusion. *)
@@ -74,10 +98,11 @@ Theorem C15_roundtrip : forall (s : str) (j : jid),
   new_jid (full j) = Ok j /\ new_jid (bare j) = Ok (strip_resource j).
 Proof. exact roundtrip. Qed.
 
-(* non-vacuity: "u1@d.x/r/@" and the domain JID with a resource "d.x/r" meet the
+(* non-vacuity: "u1@d.x/r/@", the domain JID with a resource "d.x/r" and "[::1]" meet the
    hypotheses; a space inside the local part is a bad_local_char *)
 Example C15_example :
   valid_local [117; 49] /\ valid_domain [100; 46; 120] /\ bad_local_char 32 /\ bad_domain_char 160 /\
+  bad_local_char 38 /\ bad_domain_char 60 /\ valid_domain [91; 58; 58; 49; 93] /\
   new_jid [117; 49; 64; 100; 46; 120; 47; 114; 47; 64] = Ok (mkJid [117; 49] [100; 46; 120] [114; 47; 64]) /\
   new_jid [100; 46; 120; 47; 114] = Ok (mkJid [] [100; 46; 120] [114]) /\
   full (mkJid [] [100; 46; 120] [114]) = [100; 46; 120; 47; 114] /\
@@ -87,9 +112,13 @@ Proof.
   split; [apply domain_valid_iff; reflexivity|].
   split; [left; apply mem_In; reflexivity|].
   split; [left; apply mem_In; reflexivity|].
+  split; [right; apply mem_In; reflexivity|].
+  split; [right; apply mem_In; reflexivity|].
+  split; [apply domain_valid_iff; reflexivity|].
   repeat split; reflexivity.
 Qed.
 
 Print Assumptions C15_parse_parts.
 Print Assumptions C15_rejects.
+Print Assumptions C15_forbidden_sets.
 Print Assumptions C15_roundtrip.
